@@ -185,7 +185,7 @@ def main(argv):
         print('usage: check <ID> [quick|thorough] [--replay path]')
         return 2
     pid = argv[1].upper()
-    tier = os.environ.get('VERIF_TIER') or 'quick'
+    tier = os.environ.get('VERIF_TIER') or 'quick'   # used only when the command line does not name a tier
     replay = None
     rest = argv[2:]
     i = 0
@@ -194,7 +194,7 @@ def main(argv):
             replay = rest[i + 1]
             i += 2
             continue
-        if rest[i] in ('quick', 'thorough') and not os.environ.get('VERIF_TIER'):
+        if rest[i] in ('quick', 'thorough'):
             tier = rest[i]
         i += 1
     if tier not in ('quick', 'thorough'):
